@@ -1,0 +1,19 @@
+//go:build verif
+// +build verif
+
+/*
+SPDX-License-Identifier: Apache-2.0
+*/
+
+package mediator
+
+import "github.com/hyperledger/aries-framework-go/pkg/didcomm/common/service"
+
+// VerifHandleForward is a synchronous entry to the unexported forward handler (HandleInbound runs it in a goroutine
+// and only logs its error).
+func (s *Service) VerifHandleForward(msg service.DIDCommMsg) error { return s.handleForward(msg) }
+
+// VerifHandleKeylistUpdate is a synchronous entry to the unexported keylist-update handler.
+func (s *Service) VerifHandleKeylistUpdate(msg service.DIDCommMsg, myDID, theirDID string) error {
+	return s.handleKeylistUpdate(msg, myDID, theirDID)
+}
